@@ -1,17 +1,144 @@
 /-
-  Property C03 — PLACEHOLDER while the full theorem file (see /verif/lean/stmts) is being proved:
-  only the rollback clause is here.  Replaced by the complete file as soon as it checks.
+  Property C03 — rotation installs only well-formed sets, authorised by the latest signers; epoch and lookups.
+  Statements are FIXED: prove them exactly as stated (helper lemmas go above them or in Cgp/Proofs/C03.lean).
 -/
 import Cgp.GatewaySpec
+import Cgp.Proofs.C03
 namespace Cgp.Props.C03
 open Cgp Cgp.Xdr Cgp.Gateway
 
 variable (H : Bytes → Bytes) {σ : Type} (V : Bytes → Bytes → σ → Bool)
 
-theorem failed_rotation_unchanged (w : World) (auths : List Addr) (ws : WSigners) (proof : Proof σ) (bypass : Bool) (e : Err)
-    (h : (step H V w (.rotate auths ws proof bypass)).2 = .err e) :
+/-- the validation loop accepts exactly the well-formed sets -/
+theorem validateSigners_iff_wellFormed (ws : WSigners) :
+    validateSigners ws = .ok () ↔ WellFormed ws := by
+  exact Cgp.Proofs.C03.validateSigners_iff ws
+
+/-- acceptance condition of a rotation, all conjuncts -/
+theorem rotate_ok_iff (st : State) (auths : List Addr) (ws : WSigners) (proof : Proof σ) (bypass : Bool) (now : Nat) :
+    (∃ r, rotateSigners H V st auths ws proof bypass now = .ok r) ↔
+      ((bypass = true → st.operator ∈ auths) ∧
+       (∃ b, validateProof H V st (rotateDataHash H ws) proof = .ok b ∧ (bypass = false → b = true)) ∧
+       WellFormed ws ∧
+       (bypass = false → st.lastRot.getD 0 ≤ now ∧ st.minDelay ≤ now - st.lastRot.getD 0) ∧
+       st.epochByHash (signersHash H ws) = none) := by
+  constructor
+  · rintro ⟨r, hr⟩
+    obtain ⟨h1, h2, h3, h4, h5, _⟩ := (Cgp.Proofs.C03.rotate_ok_iff' H V st auths ws proof bypass now r).mp hr
+    exact ⟨h1, h2, h3, h4, h5⟩
+  · rintro ⟨h1, h2, h3, h4, h5⟩
+    exact ⟨_, (Cgp.Proofs.C03.rotate_ok_iff' H V st auths ws proof bypass now _).mpr ⟨h1, h2, h3, h4, h5, rfl⟩⟩
+
+/-- exact effect of a successful rotation -/
+theorem rotate_effect (st st' : State) (auths : List Addr) (ws : WSigners) (proof : Proof σ) (bypass : Bool)
+    (now : Nat) (evs : List Event)
+    (h : rotateSigners H V st auths ws proof bypass now = .ok (st', evs)) :
+    st'.epoch = st.epoch + 1 ∧
+    st'.hashByEpoch = (fun e => if e = st.epoch + 1 then some (signersHash H ws) else st.hashByEpoch e) ∧
+    st'.epochByHash = (fun x => if x = signersHash H ws then some (st.epoch + 1) else st.epochByHash x) ∧
+    st'.lastRot = some now ∧
+    st'.approvals = st.approvals ∧ st'.owner = st.owner ∧ st'.operator = st.operator ∧
+    st'.domain = st.domain ∧ st'.minDelay = st.minDelay ∧ st'.retention = st.retention ∧
+    evs.length = 1 := by
+  obtain ⟨_, _, _, _, _, hr⟩ := (Cgp.Proofs.C03.rotate_ok_iff' H V st auths ws proof bypass now _).mp h
+  injection hr with h1 h2
+  subst h1 h2
+  exact ⟨rfl, rfl, rfl, rfl, rfl, rfl, rfl, rfl, rfl, rfl, rfl⟩
+
+/-- every failed rotation (any reason, including failures after the epoch counter was already bumped)
+    leaves epoch, lookups and rotation clock exactly as they were -/
+theorem failed_rotation_unchanged (w : World) (auths : List Addr) (ws : WSigners) (proof : Proof σ) (bypass : Bool)
+    (e : Err) (h : (step H V w (.rotate auths ws proof bypass)).2 = .err e) :
     (step H V w (.rotate auths ws proof bypass)).1 = w := by
   simp only [step] at h ⊢
-  split <;> simp_all
+  cases hr : rotateSigners H V w.st auths ws proof bypass w.now with
+  | error e' => rfl
+  | ok r =>
+    rw [hr] at h
+    cases h
+
+/-- the invariant holds right after any successful construction (any list of initial sets) -/
+theorem GInv_construct (owner operator : Addr) (domain : Bytes) (minDelay retention : Nat) (sets : List WSigners)
+    (now : Nat) (st : State) (evs : List Event)
+    (h : construct H owner operator domain minDelay retention sets now = .ok (st, evs)) :
+    GInv H st ∧ st.epoch = sets.length ∧ 1 ≤ st.epoch := by
+  unfold construct at h
+  by_cases he : sets.isEmpty = true
+  · rw [if_pos he] at h; cases h
+  · rw [if_neg he] at h
+    obtain ⟨h1, h2⟩ := Cgp.Proofs.C03.initSets_GInv H now sets _ st evs h
+      (Cgp.Proofs.C03.GInv_initState H owner operator domain minDelay retention)
+    have h3 : st.epoch = sets.length := by
+      rw [h2]; simp [initState]
+    refine ⟨h1, h3, ?_⟩
+    rw [h3]
+    cases sets with
+    | nil => simp at he
+    | cons a l => simp
+
+/-- construction fails as a whole if ANY initial set is malformed or repeats an earlier one's hash; the empty list fails -/
+theorem construct_ok_only_if (owner operator : Addr) (domain : Bytes) (minDelay retention : Nat) (sets : List WSigners)
+    (now : Nat) (r : State × List Event)
+    (h : construct H owner operator domain minDelay retention sets now = .ok r) :
+    sets ≠ [] ∧ (∀ ws ∈ sets, WellFormed ws) ∧ List.Pairwise (fun a b => signersHash H a ≠ signersHash H b) sets := by
+  unfold construct at h
+  by_cases he : sets.isEmpty = true
+  · rw [if_pos he] at h; cases h
+  · rw [if_neg he] at h
+    obtain ⟨st, evs⟩ := r
+    obtain ⟨h1, h2, _⟩ := Cgp.Proofs.C03.initSets_distinct H now sets _ st evs h
+    refine ⟨?_, h1, h2⟩
+    intro hc; subst hc; simp at he
+
+/-- every operation preserves the invariant -/
+theorem GInv_step (w : World) (op : Op σ) (h : GInv H w.st) : GInv H (step H V w op).1.st := by
+  rcases Cgp.Proofs.C03.step_auth H V w op with ⟨h1, h2, h3, h4⟩ | ⟨auths, ws, proof, bypass, evs, _, _, hst, hwf, hn⟩
+  · exact Cgp.Proofs.C03.GInv_congr H w.st _ h h1 h2 h3 h4
+  · rw [hst]; exact Cgp.Proofs.C03.GInv_rotated H w.st ws w.now h hwf hn
+
+/-- … hence it holds after every history -/
+theorem GInv_run (w : World) (ops : List (Op σ)) (h : GInv H w.st) : GInv H (run H V w ops).1.st := by
+  induction ops generalizing w with
+  | nil => exact h
+  | cons op ops ih =>
+    simp only [run]
+    exact ih (step H V w op).1 (GInv_step H V w op h)
+
+/-- **every reachable state**: lookups mutually inverse, exactly epochs 1..epoch installed -/
+theorem GInv_reachable (w : World) (h : Reachable H V w) : GInv H w.st := by
+  obtain ⟨owner, operator, domain, minDelay, retention, sets, now, w0, ops, hc, hr⟩ := h
+  unfold constructed at hc
+  cases hcon : construct H owner operator domain minDelay retention sets now with
+  | error e => rw [hcon] at hc; cases hc
+  | ok r =>
+    obtain ⟨st, evs⟩ := r
+    rw [hcon] at hc
+    dsimp only at hc
+    injection hc with hc
+    subst hc
+    rw [← hr]
+    exact GInv_run H V _ ops (GInv_construct H owner operator domain minDelay retention sets now st evs hcon).1
+
+/-- the epoch advances by exactly one per successful rotation and never otherwise -/
+theorem epoch_step (w : World) (op : Op σ) :
+    (step H V w op).1.st.epoch = w.st.epoch ∨
+    (∃ auths ws proof bypass evs, op = .rotate auths ws proof bypass ∧ (step H V w op).2 = .ok evs ∧
+      (step H V w op).1.st.epoch = w.st.epoch + 1) := by
+  rcases Cgp.Proofs.C03.step_auth H V w op with ⟨_, _, h3, _⟩ | ⟨auths, ws, proof, bypass, evs, hop, hok, hst, _, _⟩
+  · exact Or.inl h3
+  · right
+    refine ⟨auths, ws, proof, bypass, evs, hop, hok, ?_⟩
+    rw [hst]; rfl
+
+/-- non-vacuity: a concrete well-formed set -/
+example : WellFormed ⟨[⟨[1], 3⟩, ⟨[2], 4⟩], 7, []⟩ := by
+  refine ⟨by simp, ?_, ?_, ?_, by decide, by decide, by decide⟩
+  · simp [bytesLt]
+  · intro s hs
+    simp at hs
+    rcases hs with rfl | rfl <;> decide
+  · intro s hs
+    simp at hs
+    rcases hs with rfl | rfl <;> simp
 
 end Cgp.Props.C03
